@@ -12,7 +12,9 @@ INFO = {
                    "evaluation) depends on the context string, nonce, verification key, aggregator identifier, algorithm "
                    "identifier / usage constants as the property requires; the domain-separation tag depends on VERSION, "
                    "algorithm id and usage; every XOF absorbs all tag parts (so the context, which is a tag part, is "
-                   "bound); the aggregator id is range-checked at full width. The property's exception is checked as "
+                   "bound); the aggregator id is range-checked at full width; every constructor of one Prio3 circuit passes the same "
+                   "algorithm identifier (the multithreaded ones their serial sibling's), distinct circuits pass distinct ones, "
+                   "with the draft's values. The property's exception is checked as "
                    "must-NOT-depend: the state's measurement share and Prio3's verify_next do not depend on the nonce. "
                    "May-depend sets over-approximate, so these rules cannot fire on code that binds the input; they can "
                    "miss an external callee that ignores an argument.",
